@@ -12,7 +12,8 @@ RULE = ("every 2-input <=2-gate circuit (sampled) and seeded random lint-clean c
         "through to_file/from_file; io, registry, per-pin nets, function at every output and bb_input pin (all "
         "valuations), and graph identity when there are no constants and behavioral=False; non-trivial = circuit "
         "has a gate"
-        "; plus: nets named tie_hi/tie_lo/tie_a (gate or constant), a non-output constant driving a blackbox input pin")
+        "; plus: nets named tie_hi/tie_lo/tie_a (gate or constant), a non-output constant driving a blackbox input pin"
+        "; file suffixes .v/.bench/.txt/none/.V with the explicit fmt; io and gates named like the reader's scratch nodes for the expressions the writer emits (or_a_b, or_b_a, ...)")
 BOUND = "circuits <= 14 nodes, <= 9 free signals; 4/16 hash seeds"
 ESC = ["\\a[0]", "\\b[1]", "\\n$1", "\\w-x", "\\sel", "\\en_1"]   # the last two: escaped although they would not need it
 SYN_RE = re.compile(r"^(and|or|xor|xnor|not|mux_n|mux_a0|mux_a1|mux_o)_")
@@ -38,6 +39,23 @@ def cases(tier, seed):
     for t0, t1 in (("and", "xor"), ("nor", "xor"), ("or", "or")):
         mk = lambda t: {"name": "c", "nodes": [["a", "input", False], ["b", "input", False], ["y", t, True]], "edges": [["a", "y"], ["b", "y"]], "bbs": {}}
         yield {"c": mk(t1), "beh": False, "file": True, "before": mk(t0)}
+    # file names whose suffix says nothing or something else: the explicit fmt decides
+    for ext in (".bench", ".txt", "", ".V"):
+        yield {"c": mk("nand"), "beh": False, "file": True, "ext": ext}
+        yield {"c": mk("xor"), "beh": True, "file": True, "ext": ext, "before": mk("and")}
+    # io named like the scratch nodes the reader makes for the very expressions the writer emits
+    for op in ("and", "or", "xor"):
+        for extra_t in ("input", "buf"):
+            n1, n2 = f"{op}_a_b", f"{op}_b_a"
+            nodes = [["a", "input", False], ["b", "input", False], ["y", op, True], ["z", "and", True]]
+            edges = [["a", "y"], ["b", "y"], [n1, "z"], [n2, "z"]]
+            if extra_t == "input":
+                nodes += [[n1, "input", False], [n2, "input", False]]
+            else:
+                nodes += [[n1, "buf", False], [n2, "not", False]]
+                edges += [["a", n1], ["b", n2]]
+            for beh in (False, True):
+                yield {"c": {"name": "c", "nodes": nodes, "edges": edges, "bbs": {}}, "beh": beh, "file": False}
     # a constant that is not an output and drives a blackbox input pin (both writer styles)
     for k in ("0", "1"):
         cd = {"name": "c", "nodes": [["a", "input", False], ["rst_off", k, False], ["u.d", "bb_input", False], ["u.r", "bb_input", False],
@@ -60,7 +78,7 @@ def cases(tier, seed):
             for rec in cd["nodes"]:
                 if rec[1] in ("0", "1"):
                     rec[2] = True
-        yield {"c": cd, "beh": rng.random() < 0.5, "file": rng.random() < 0.15}
+        yield {"c": cd, "beh": rng.random() < 0.5, "file": rng.random() < 0.15, "ext": rng.choice([".v", ".v", ".bench", ".txt", ""])}
 
 
 def run_case(case):
@@ -73,7 +91,9 @@ def run_case(case):
         return {"nontrivial": False, "failures": []}
     fails = []
     names = list(g.nodes)
-    synthetic = beh and any(SYN_RE.match(n) for n in names)
+    # D11 is about a net the reader DEFINES (by its own assign) after an expression made a scratch node of that name;
+    # primary inputs exist before any expression is read, so a synthetic-looking input name does not make a case D11
+    synthetic = beh and any(SYN_RE.match(n) and g.nodes[n]["type"] != "input" for n in names)
     tag = "[net-named-like-synthetic-gate]" if synthetic else ""
 
     def fail(kind, msg):
@@ -85,14 +105,16 @@ def run_case(case):
         if case["file"]:
             d = tempfile.mkdtemp(prefix="verif_c03_")
             try:
-                path = os.path.join(d, f"{c.name}.v")
+                ext = case.get("ext", ".v")
+                how = {} if ext == ".v" else {"fmt": "verilog"}
+                path = os.path.join(d, f"{c.name}{ext}")
                 if case.get("before") is not None:
                     # another circuit was written to and read from this very path a moment ago
                     cg.to_file(circ.build(case["before"]), path, behavioral=beh)
-                    cg.from_file(path, blackboxes=bbtypes)
+                    cg.from_file(path, blackboxes=bbtypes, **how)
                 cg.to_file(c, path, behavioral=beh)
                 text = open(path).read()
-                r = cg.from_file(path, blackboxes=bbtypes)
+                r = cg.from_file(path, blackboxes=bbtypes, **how)
             finally:
                 for f in os.listdir(d):
                     os.unlink(os.path.join(d, f))
